@@ -95,6 +95,8 @@ func diffBody(r *Run) {
 		if div != "" {
 			r.Violation("C15/embedded-diverges-from-sources", "", "engine %s world %d: %s", eng.Name, wi, div)
 		}
+		// bindings are driven on the populated source-compiled world
+		bindingsPass(r, w)
 		break // worlds appended by the replay itself are not replayed
 	}
 	r.Checkpoint()
